@@ -67,8 +67,10 @@ def _run_job(arg):
         rec['stats'] = core.STATS.as_dict()
     except JobTimeout:
         rec['status'] = 'timeout'
-    except Exception as e:
+    except BaseException as e:      # incl. SystemExit raised by third-party code (blimpy calls sys.exit on bad files)
         from symx import core
+        if isinstance(e, KeyboardInterrupt):
+            raise
         if isinstance(e, core.Inconclusive):
             rec['status'] = 'inconclusive'
             rec['error'] = f"{type(e).__name__}: {e}"
